@@ -23,7 +23,24 @@ pub enum Case {
     /// the zoo of exported types in their default / valid states
     Defaults { hash_seed: u64, reader_seed: u64 },
     /// a locomotive or consist simulation: every step index as a crash point, every format
-    PowerSim { locos: Vec<pt::LocoSpec>, as_consist: bool, pdct: String, save_interval: Option<usize>, n_steps: usize, brake_first: bool, assert_limits: bool, #[serde(default = "one")] dt: f64, hash_seed: u64, reader_seed: u64 },
+    PowerSim {
+        locos: Vec<pt::LocoSpec>,
+        as_consist: bool,
+        pdct: String,
+        save_interval: Option<usize>,
+        n_steps: usize,
+        brake_first: bool,
+        assert_limits: bool,
+        #[serde(default = "one")]
+        dt: f64,
+        hash_seed: u64,
+        reader_seed: u64,
+        /// calibration setters applied to fully constructed components before the run (unit, component 0 = engine /
+        /// 1 = generator / 2 = drivetrain, true = set_eta_max / false = set_eta_range, value): the object a user
+        /// gets from `new()` + `set_eta_*` must checkpoint like any other
+        #[serde(default)]
+        eta_ops: Vec<(usize, u8, bool, f64)>,
+    },
     /// a train simulation (set-speed or speed-limited) from the trn generator: sampled crash points x formats
     TrainSim { inner: trn::Case, n_steps: usize, finished: bool, reader_seed: u64 },
 }
@@ -54,19 +71,35 @@ pub fn generate(rng: &mut Rng, _focus: &str, _thorough: bool) -> Case {
         1..=6 => {
             let as_consist = rng.chance(0.6);
             let n = if as_consist { rng.usize(1, 4) } else { 1 };
+            // calibration setters on finished components (drawn first: the component a setter is applied to keeps
+            // its generated, non-flat map - on a flat map a stale derived table would be invisible)
+            let eta_ops: Vec<(usize, u8, bool, f64)> = if rng.chance(0.2) {
+                (0..rng.usize(1, 2)).map(|_| (rng.usize(0, n - 1), rng.below(3) as u8, rng.chance(0.6), if rng.chance(0.5) { *rng.pick(&[0.85, 0.9, 0.95, 0.8]) } else { *rng.pick(&[0.02, 0.05, 0.1]) })).collect()
+            } else {
+                vec![]
+            };
             let locos = (0..n)
-                .map(|_| {
+                .map(|u| {
                     let b = rng.chance(0.4);
                     let mut l = pt::gen_loco(rng, b);
+                    let keeps = |comp: u8| eta_ops.iter().any(|o| o.0 == u && (o.1 == comp || (comp == 2 && o.1 != 1 && b)));
                     // gentle demands on shipped electrical maps so that the trace is accepted step by step
                     match &mut l.kind {
                         pt::KindSpec::Conv { fc, gen, edrv } => {
-                            gen.map = pt::MapSpec::default();
-                            edrv.map = pt::MapSpec::default();
+                            if !keeps(1) {
+                                gen.map = pt::MapSpec::default();
+                            }
+                            if !keeps(2) {
+                                edrv.map = pt::MapSpec::default();
+                            }
                             gen.p_max = gen.p_max.max(fc.p_max * 1.3);
                             edrv.p_max = edrv.p_max.max(fc.p_max * 1.3);
                         }
-                        pt::KindSpec::Bel { edrv, .. } => edrv.map = pt::MapSpec::default(),
+                        pt::KindSpec::Bel { edrv, .. } => {
+                            if !keeps(2) {
+                                edrv.map = pt::MapSpec::default();
+                            }
+                        }
                         _ => {}
                     }
                     // the shipped hybrid unit: its fuel / battery split search runs on a step counter of its own
@@ -89,6 +122,7 @@ pub fn generate(rng: &mut Rng, _focus: &str, _thorough: bool) -> Case {
                 dt: if rng.chance(0.15) { *rng.pick(&[30.0, 120.0, 300.0, 600.0]) } else { 1.0 },
                 hash_seed: rng.next(),
                 reader_seed: rng.next(),
+                eta_ops,
             }
         }
         _ => {
@@ -496,7 +530,7 @@ pub fn execute(case: &Case, ctx: &mut Ctx) {
             let _ = s;
             ctx.nontrivial = true;
         }
-        Case::PowerSim { locos, as_consist, pdct, save_interval, n_steps, brake_first, assert_limits, dt, reader_seed, .. } => {
+        Case::PowerSim { locos, as_consist, pdct, save_interval, n_steps, brake_first, assert_limits, dt, reader_seed, eta_ops, .. } => {
             ctx.class.push(format!("io:powersim:{}:n{}:iv{:?}:al{}:dt{}", if *as_consist { "con" } else { "loco" }, locos.len(), save_interval.map(|x| x.min(3)), assert_limits, dt));
             if *dt > 1.0 {
                 ctx.hit("probe.io.coarse_trace");
@@ -531,6 +565,13 @@ pub fn execute(case: &Case, ctx: &mut Ctx) {
             let points: Vec<usize> = (0..=*n_steps).collect();
             if *as_consist {
                 let mut con = pt::build_consist(&ptc);
+                for op in eta_ops {
+                    if let Some(l) = con.loco_vec.get_mut(op.0) {
+                        if !apply_eta_op(ctx, l, op) {
+                            return;
+                        }
+                    }
+                }
                 if !assert_limits {
                     con.set_assert_limits(false);
                 }
@@ -539,6 +580,11 @@ pub fn execute(case: &Case, ctx: &mut Ctx) {
                 roundtrip(ctx, "ConsistSimulation (generated, init fills derived fields)", &sim, &mut rng, false);
             } else {
                 let mut loco = pt::build_loco(&locos[0], *save_interval);
+                for op in eta_ops {
+                    if op.0 == 0 && !apply_eta_op(ctx, &mut loco, op) {
+                        return;
+                    }
+                }
                 if !assert_limits {
                     loco.assert_limits = false;
                 }
@@ -608,11 +654,48 @@ pub fn execute(case: &Case, ctx: &mut Ctx) {
     }
 }
 
+/// `new()` leaves a component with its derived tables built; a calibration setter is then applied to that
+/// finished object (value: eta_max for `true`, eta_range for `false`; a value outside the setter's domain is
+/// simply refused by it)
+/// Returns false when the setter refused the value: nothing is promised about the object after a refused
+/// update (it may be half-changed), so the case ends there.
+fn apply_eta_op(ctx: &mut Ctx, l: &mut Locomotive, op: &(usize, u8, bool, f64)) -> bool {
+    use altrios_core::consist::locomotive::locomotive_model::PowertrainType;
+    let (_, comp, is_max, val) = *op;
+    let val = if is_max { val.max(0.5) } else { val.min(0.3) };
+    let r: Result<(), String> = match (&mut l.loco_type, comp) {
+        (PowertrainType::ConventionalLoco(c), 0) => if is_max { c.fc.set_eta_max(val) } else { c.fc.set_eta_range(val) },
+        (PowertrainType::ConventionalLoco(c), 1) => {
+            let _ = c.gen.set_pwr_in_frac_interp();
+            if is_max { c.gen.set_eta_max(val) } else { c.gen.set_eta_range(val) }
+        }
+        (PowertrainType::ConventionalLoco(c), _) => {
+            let _ = c.edrv.set_pwr_in_frac_interp();
+            if is_max { c.edrv.set_eta_max(val) } else { c.edrv.set_eta_range(val) }
+        }
+        (PowertrainType::BatteryElectricLoco(b), _) => {
+            let _ = b.edrv.set_pwr_in_frac_interp();
+            if is_max { b.edrv.set_eta_max(val) } else { b.edrv.set_eta_range(val) }
+        }
+        _ => return true,
+    };
+    match r {
+        Ok(()) => {
+            ctx.hit("fault.config.eta_setter_after_construction");
+            true
+        }
+        Err(_) => {
+            ctx.hit("stat.eta_setter_refused");
+            false
+        }
+    }
+}
+
 pub fn shrink(case: &Case) -> Vec<Case> {
     let mut out = vec![];
     match case {
-        Case::PowerSim { locos, as_consist, pdct, save_interval, n_steps, brake_first, assert_limits, dt, hash_seed, reader_seed } => {
-            let mk = |locos: Vec<pt::LocoSpec>, n: usize, iv: Option<usize>, bf: bool| Case::PowerSim { locos, as_consist: *as_consist, pdct: pdct.clone(), save_interval: iv, n_steps: n, brake_first: bf, assert_limits: *assert_limits, dt: *dt, hash_seed: *hash_seed, reader_seed: *reader_seed };
+        Case::PowerSim { locos, as_consist, pdct, save_interval, n_steps, brake_first, assert_limits, dt, hash_seed, reader_seed, eta_ops } => {
+            let mk = |locos: Vec<pt::LocoSpec>, n: usize, iv: Option<usize>, bf: bool| Case::PowerSim { eta_ops: if locos.len() == 1 { eta_ops.iter().map(|o| (0, o.1, o.2, o.3)).collect() } else { eta_ops.clone() }, locos, as_consist: *as_consist, pdct: pdct.clone(), save_interval: iv, n_steps: n, brake_first: bf, assert_limits: *assert_limits, dt: *dt, hash_seed: *hash_seed, reader_seed: *reader_seed };
             if *n_steps > 2 {
                 out.push(mk(locos.clone(), n_steps / 2, *save_interval, *brake_first));
                 out.push(mk(locos.clone(), n_steps - 1, *save_interval, *brake_first));
